@@ -1683,6 +1683,34 @@ func (e *nestEnv) verifyRoot(when string) {
 	}
 	if err != nil {
 		e.violation("C10", when+": outermost container is not structurally valid: "+err.Error())
+		return
+	}
+	e.verifyWrapped(e.root, "C10", when)
+}
+
+// verifyWrapped: the library's VerifyArray / VerifyMap descend into *Array / *OrderedMap element values only
+// (map_verify.go verifyValue); a container under a WRAPPER (Some(child)) - inlined or referenced - and
+// everything below it is skipped.  Every wrapped container of the family of top is therefore verified through
+// its own handle (same slab objects), outermost first, so that the whole tree is covered.
+func (e *nestEnv) verifyWrapped(top *node, prop, when string) {
+	if !e.ext {
+		return
+	}
+	tic := func(a, b atree.TypeInfo) bool { return a == b }
+	for _, x := range e.nodes {
+		if !x.live || x.parent == nil || x.wrap == 0 || !inSubtree(x, top) {
+			continue
+		}
+		var err error
+		if x.kind == 'a' {
+			err = atree.VerifyArray(x.arr, e.addr, x.arr.Type(), tic, e.hi(), true)
+		} else {
+			err = atree.VerifyMap(x.mp, e.addr, x.mp.Type(), tic, e.hi(), true)
+		}
+		if err != nil {
+			e.violation(prop, fmt.Sprintf("%s: container %d (in container %d under %d wrapper(s), which the verifier of the outermost container does not look into) is not structurally valid: %v", when, x.h, x.parent.h, x.wrap, err))
+			return
+		}
 	}
 }
 
@@ -2085,6 +2113,8 @@ func (e *nestEnv) checkDetached() {
 		}
 		if err != nil {
 			e.violation("C11", fmt.Sprintf("detached container %d is not a structurally valid standalone value: %v", d.h, err))
+		} else {
+			e.verifyWrapped(d, "C11", fmt.Sprintf("detached container %d", d.h))
 		}
 	}
 }
